@@ -125,7 +125,9 @@ def replay_updates(ctx, n):
                                 "            - name: Slot_1\n              quantity: 8\n")
             flags = ["--execution_mode=replay", "--replay_trace=alibaba", "--workload_profile_path=" + tp, "--worker_profile_path=" + wk,
                      "--scheduler=%s" % rng.choice(["EDF", "FIFO", "LSF"]), "--scheduler_runtime=0", "--random_seed=%d" % rng.randrange(1, 10 ** 6),
-                     "--override_release_policy=poisson", "--override_poisson_arrival_rate=0.01",
+                     "--override_release_policy=poisson",
+                     # (rate 0.002: arrivals about 500us apart - most update windows are empty and the cluster idles in between)
+                     "--override_poisson_arrival_rate=%s" % rng.choice(["0.01", "0.002", "0.002"]),
                      "--override_num_invocation=%d" % rng.randint(3, 6), "--min_deadline_variance=50", "--max_deadline_variance=150",
                      "--workload_update_interval=%d" % rng.choice([100, 200, 400]), "--log_level=info", "--csv_file_name=out.csv",
                      "--log_file_name=log.txt", "--log_dir=" + d]
@@ -162,7 +164,7 @@ def replay_updates(ctx, n):
     ctx.cov["streams"]["S-replay-updates"] = {"traces": ran, "failing": bad, "runs_with_work_in_two_or_more_updates": multi}
     ctx.cov["evaluations"] += ran
     ctx.rules.append("S-replay-updates: generated Alibaba-style traces replayed with --workload_update_interval 100-400 (poisson arrivals "
-                     "at rate 0.01, 3-6 invocations: work arrives in several update windows) under EDF/FIFO/LSF; the run must end "
+                     "at rate 0.01 or 0.002, 3-6 invocations: work arrives in several update windows, with idle gaps at the low rate) under EDF/FIFO/LSF; the run must end "
                      "normally with SIMULATOR_END and as many TASK_FINISHED as TASK_RELEASE rows")
 
 
@@ -233,7 +235,7 @@ def run(ctx):
                      "conditional without a join (each branch ends in its own sink) or with a side output inside a branch")
     # ---- S-replay-updates: the trace-replay path with PERIODIC workload updates (work arrives in several batches): every run must
     # end normally and finish everything it released (regression stream of the repaired finding F43)
-    replay_updates(ctx, 4 if ctx.tier == "quick" else 24)
+    replay_updates(ctx, 6 if ctx.tier == "quick" else 30)
     # ---- known finding F8: a strategy with runtime 0 livelocks simulate()
     for k in core.load_known():
         if k.get("status") == "known" and k.get("property") == "C05" and k.get("id") == "F8":
